@@ -229,6 +229,17 @@ def check_parse(raw, x):
             raw2 = _re.sub('\x1b\\[([0-9:;<=>?]*)m', drop, raw)
         except ValueError:
             raw2 = None
+        # blanks around a parameter do not count (`ESC[ 1 ;31m` is `ESC[1;31m`, `ESC[ m` is `ESC[m`)
+        raw3 = _re.sub('\x1b\\[([0-9; ]*)m', lambda m: '\x1b[' + ';'.join(t.strip() for t in m.group(1).split(';')) + 'm', raw)
+        if raw3 != raw:
+            shown3, _, wf3 = T.run(raw3, {})
+            if wf3 and ''.join(c for c, _ in shown3) == x._s:
+                for i, ((c, st), ac) in enumerate(zip(shown3, acts(x))):
+                    e = eff(texts(ac))
+                    if e != st:
+                        bad.append(('C02', 'parse_blank_params', 'raw=%r i=%d reported=%r; with the blanks around the parameters dropped (%r) a terminal shows %r' % (
+                            raw, i, texts(ac), raw3, sorted(st))))
+                        break
         if raw2 is not None and changed[0]:
             shown2, _, wf2 = T.run(raw2, {})
             if wf2 and ''.join(c for c, _ in shown2) == x._s:
